@@ -54,6 +54,12 @@ func c19(r *Report) propMeta {
 	r.DeferredSend("key-released-on-every-path", "yoda.SubmitReport", "field:Context.freeKeys")
 	r.Dominated("subscribe-before-pending-snapshot", "yoda.runImpl", CallEff("EventsClient.Subscribe"), CallEff("ABCIClient.ABCIQuery", "const:/band.oracle.v1.Query/PendingRequests"))
 
+	r.Rule("C19.R8", "hand-off to the submitting goroutine; the start-up query lists every open request")
+	r.GoArgNotReused("batch-not-rewritten", "yoda.runImpl", "yoda.SubmitReport", 2)
+	pq := "x/oracle/keeper.Querier.PendingRequests"
+	r.LoopAlwaysCalls("pending-query-looks-at-every-open-request", pq, "Keeper.MustGetRequest", Cond{})
+	r.EffectSet("pending-query-ignores-results", pq, []string{"Keeper.HasResult", "Keeper.GetResult", "Keeper.MustGetResult"}, nil)
+
 	r.Rule("C19.R7", "RPC helper: a result or an error, never neither")
 	abci := "yoda.abciQuery"
 	r.Gate("query-ok-only-if-rpc-ok", abci, RetOK(), []Cond{nilErrOf("ABCIClient.ABCIQuery")}, GateOpts{})
@@ -65,7 +71,7 @@ func c19(r *Report) propMeta {
 
 	return propMeta{
 		Decided: []string{
-			"R7 abciQuery returns nil error only together with the RPC result of a successful ABCIQuery, and every other return carries an error that derives from the failed ABCIQuery (never a nil result with a nil error after the retries); the three fetchers touch the result only under err == nil",
+			"R8 a batch handed to `go SubmitReport` is replaced in the waiting list by a fresh slice or the disjoint tail, never by a re-slice that keeps its first element (the next queued report would overwrite a report in flight); the PendingRequests query, which seeds a restarted yoda, looks at every request between the expiry cursor and the request count and does not consult results (a resolved request still demands a report from every selected validator until it expires)", "R7 abciQuery returns nil error only together with the RPC result of a successful ABCIQuery, and every other return carries an error that derives from the failed ABCIQuery (never a nil result with a nil error after the retries); the three fetchers touch the result only under err == nil",
 			"R1 handleRawRequest sends exactly one result on every path; every result is NewRawReport(req.externalID, …); the exit-code/output of the executor is used only when load, sign and Exec all succeeded, every other send carries 255",
 			"R2 handleRawRequests: channel buffered to len(reqs), one goroutine per element and one receive per element of the same slice, every received report appended",
 			"R3 handleRequest: at most one message, sent only if the validator is requested and every data-source hash resolved, always sent once handleRawRequests ran; message = NewMsgReportData(id, gathered reports, validator) with one raw request per req.RawRequests entry carrying its external id — the shape CheckValidReport demands",
